@@ -19,9 +19,11 @@ META = {
                    "inside a per-item loop. R19.scope: in the extracted condition of every reported location, every bound witness (a second node the verdict depends on, "
                    "e.g. the function that precedes a constructor, the attribute that makes a function payable) is reached from the reported node's own top-level item; "
                    "the only file-wide inputs are the version helper (pragmas are kept by the property), tables keyed by state-variable name (excluded by the property's "
-                   "quantifier) and sets of locations compared by identity.",
+                   "quantifier) and sets of locations compared by identity. R19.version: the version helper is admissible as a file-wide input because it depends on the pragma directives "
+                   "alone — C09's obligations on its search (every pragma directive is a candidate wherever it stands, the search ends early only at a directive named "
+                   "solidity) are inherited.",
     "assumptions": ["items do not mention each other's state-variable names (property quantifier)", "C01: a search rooted at an item stays inside it"],
-    "floors": {"R19.scope": 25, "R19.iso.loop": 40},
+    "floors": {"R19.scope": 25, "R19.iso.loop": 40, "R19.version": 1},
 }
 
 EXCLUDED = ("SafeMathPre080", "SafeMathPost080")
@@ -162,5 +164,13 @@ def run(ctx, crate):
                 obs.append(Ob("R19.scope", body.path, "%s: the condition for %s only looks at the reported node's own item" % (label, show(t)[-50:]), not bad,
                               site=site.where if site else None, expected="witnesses reached from the reported node or its enclosing item", found=bad or "own item only",
                               nontrivial=others > 0 or len(B.atoms_of(f)) > 1))
+    # the one file-wide input the detectors share is the version helper; it is an admissible channel only because it is a function of the file's pragma
+    # directives alone (the property keeps them): every pragma directive is a candidate wherever it stands among the other items, and the search is cut
+    # short only by a directive named solidity (C09's obligations on the helper)
+    from rules import depend
+    obs.append(depend.inherited(ctx, crate, "R19.version", VERSION_FN, "the version helper depends on the file's pragma directives only, not on the items around them "
+                                "(C09's obligations on the pragma search)", "C09",
+                                lambda o: o.rule == "R09.pragma" and o.detail.startswith(("all pragma directives", "other pragmas are skipped", "a version is produced only", "anchor missing")),
+                                example="interface I {} pragma solidity 0.8.17; contract C { function f(uint a) external { require(a > 0, \"zero\"); } }"))
     ctx.analysed.setdefault("C19", {})[crate.ctype] = {"detectors": n_det}
     return obs
